@@ -76,6 +76,11 @@ Definition parse_pubkey (b : bytes) : option (N * bytes) :=
 (* PubKeyUnmarshallers has exactly the four key types 0..3 *)
 Definition key_type_ok (kt : N) : bool := kt <? 4.
 
+(* rsa_go.go UnmarshalRsaPublicKey / UnmarshalRsaPrivateKey / GenerateRSAKeyPair: the same two
+   size checks everywhere: BitLen < MinRsaKeyBits -> too small, BitLen > maxRsaKeyBits -> too big *)
+Definition rsa_size_ok (min_bits max_bits bits : N) : bool :=
+  negb (bits <? min_bits) && negb (max_bits <? bits).
+
 (* ---- multihash ------------------------------------------------------------ *)
 Definition MH_IDENTITY : N := 0.
 Definition MH_SHA2_256 : N := 18.
